@@ -419,3 +419,12 @@ CHECKS["C13"]["rule"] += (" (4) WrappedParser.Reset: a wrapped parser used on on
 
 CHECKS["C20"]["rule"] += (" (1b) interleaving: with a second configuration marshalled, parsed and rejected in between, "
                           "ParseJSON(json.Marshal(&cfg)) still yields cfg (the result does not depend on other JSON operations).")
+
+# large geometries (buffers of tens of kB up to the 8 MiB default, streams up to 400 kB)
+for _pid, _q, _t in [("C01", 20, 100), ("C02", 10, 60), ("C03", 10, 60), ("C15", 15, 80), ("C16", 10, 60), ("C19", 10, 60), ("C08", 10, 60)]:
+    _sub = {"C15": 8, "C19": 6}.get(_pid, KINDS7)
+    CHECKS[_pid]["quick"]["tests"].append({"test": "Test%sLarge" % _pid, "checks": _q, "subchecks": _sub})
+    CHECKS[_pid]["thorough"]["tests"].append({"test": "Test%sLarge" % _pid, "checks": _t, "subchecks": _sub})
+    CHECKS[_pid]["rule"] += (" Plus large geometries: buffers of 32 KiB..150 kB or the 8 MiB default, default-sized hash tables, "
+                             "streams of 20..400 kB delivered in chunks of 1 byte..70 kB through Write and scripted readers (several "
+                             "32 KiB read chunks per refill), same oracles.")
